@@ -107,6 +107,16 @@ class VStackV:
         self.rows = rows
 
 
+class StrMapV:
+    """a string with one character per residue: residue letter -> output text (identity for the sequence itself)"""
+
+    def __init__(self, table):
+        self.table = dict(table)
+
+    def __repr__(self):
+        return "StrMapV(%s)" % "".join("%s>%s " % kv for kv in sorted(self.table.items()))
+
+
 class ListAcc:
     """a list being built by append in an element loop"""
 
@@ -344,6 +354,33 @@ class Evaluator:
             return [Path(p.conds, "break", None, env)]
         if isinstance(s, ast.Assert):
             return [p]
+        if isinstance(s, ast.Try):
+            if s.finalbody or s.orelse:
+                raise Undecided("try/else/finally not modelled", fr.f.loc(s))
+            outs = []
+            for q in self.exec_block(s.body, [p], fr):
+                if q.kind != "raise":
+                    outs.append(q)
+                    continue
+                handled = False
+                for h in s.handlers:
+                    names = []
+                    if h.type is None:
+                        names = None
+                    elif isinstance(h.type, ast.Tuple):
+                        names = [unparse(e) for e in h.type.elts]
+                    else:
+                        names = [unparse(h.type)]
+                    if names is None or q.value in names or "Exception" in (names or []):
+                        e2 = dict(q.env)
+                        if h.name:
+                            e2[h.name] = UnknownV("exception object")
+                        outs.extend(self.exec_block(h.body, [Path(q.conds, "live", None, e2)], fr))
+                        handled = True
+                        break
+                if not handled:
+                    outs.append(q)
+            return outs
         raise Undecided("statement kind %s not modelled" % type(s).__name__, fr.f.loc(s))
 
     def exec_call_stmt(self, call, p, fr):
@@ -354,6 +391,9 @@ class Evaluator:
             if isinstance(tgt, ListAcc) and len(call.args) == 1:
                 outs = []
                 for conds, v in self.eval_paths(call.args[0], p, fr):
+                    if isinstance(v, _Raised):
+                        outs.append(Path(conds, "raise", v.name, p.env))
+                        continue
                     e2 = dict(p.env)
                     e2[fn.value.id] = ListAcc(tgt.items + [v])
                     outs.append(Path(conds, "live", None, e2))
@@ -571,6 +611,10 @@ class Evaluator:
             env[name] = tot
         for name, per in appends.items():
             lens = {len(v) for v in per.values()}
+            if all(isinstance(x, str) for v in per.values() for x in v) and not pre[name].items and full:
+                # output text contributed by each residue (normally exactly one character)
+                env[name] = StrMapV({L: "".join(v) for L, v in per.items()})
+                continue
             if lens != {1}:
                 raise Undecided("list %s does not receive exactly one element per residue on every path "
                                 "(lengths %s)" % (name, sorted(lens)), fr.f.loc(s))
@@ -578,6 +622,9 @@ class Evaluator:
                 raise Undecided("list %s not empty before the element loop" % name, fr.f.loc(s))
             if not full:
                 raise Undecided("per-residue list over a partial domain", fr.f.loc(s))
+            if all(isinstance(v[0], str) for v in per.values()):
+                env[name] = StrMapV({L: v[0] for L, v in per.items()})
+                continue
             table = {}
             for L, v in per.items():
                 x = v[0]
@@ -766,6 +813,8 @@ class Evaluator:
                 return r if name == "Is" else not r
             raise Undecided("identity comparison", fr.f.loc(node))
         if name in ("In", "NotIn"):
+            if isinstance(b, ListAcc):
+                b = list(b.items)
             if isinstance(a, str) and isinstance(b, (str, list, tuple, set, frozenset, dict)):
                 r = a in b
                 return r if name == "In" else not r
@@ -821,6 +870,8 @@ class Evaluator:
             if isinstance(node, ast.List) and not vals:
                 return ListAcc([])
             return tuple(vals) if isinstance(node, ast.Tuple) else vals
+        if isinstance(node, ast.Set):
+            return [self.eval(e, env, fr) for e in node.elts]
         if isinstance(node, ast.Dict):
             return {_pykey(self.eval(k, env, fr)): self.eval(v, env, fr) for k, v in zip(node.keys, node.values)}
         if isinstance(node, ast.Attribute):
@@ -936,6 +987,10 @@ class Evaluator:
                 if hi is None:
                     hi = Rat.atom("N")
                 return WinV(base, lo, hi)
+            if isinstance(base, (list, tuple, str)) and lo.is_const() and (hi is None or hi.is_const()):
+                a = int(lo.const_value())
+                b = None if hi is None else int(hi.const_value())
+                return base[a:b]
             raise Undecided("slice of %r" % (base,), fr.f.loc(node))
         idx = self.eval(sl, env, fr)
         if isinstance(base, WhereV):
@@ -1042,6 +1097,16 @@ class Evaluator:
         args = node.args
         kw = {k.arg: k.value for k in node.keywords}
         # ---- builtins and numpy idioms
+        if name == "isinstance" and len(args) == 2 and isinstance(args[1], ast.Name):
+            v = self.eval(args[0], env, fr)
+            t = args[1].id
+            if t == "dict":
+                return isinstance(v, dict)
+            if t == "int":
+                return isinstance(v, Rat) and v.is_const() and v.const_value().denominator == 1
+            if t == "str":
+                return isinstance(v, str)
+            raise Undecided("isinstance(..., %s)" % t, fr.f.loc(node))
         if name in ("float", "int", "str", "abs", "len", "list", "set", "min", "max", "sum", "range",
                     "sorted", "tuple"):
             return self.builtin(name, node, env, fr)
@@ -1049,6 +1114,18 @@ class Evaluator:
             return self.numpy(fn.attr, node, env, fr)
         if isinstance(fn, ast.Attribute):
             # methods of modelled values
+            if fn.attr == "join" and len(args) == 1:
+                base = self.eval(fn.value, env, fr)
+                a = self.eval(args[0], env, fr)
+                if base == "" and isinstance(a, StrMapV):
+                    return a
+                if base == "" and isinstance(a, SeqV) and a.kind == "seq":
+                    return StrMapV({L: L for L in LETTERS})
+                if isinstance(base, str) and isinstance(a, ListAcc) and all(isinstance(x, str) for x in a.items):
+                    return base.join(a.items)
+                if isinstance(base, str) and isinstance(a, (list, tuple)) and all(isinstance(x, str) for x in a):
+                    return base.join(a)
+                raise Undecided("join of %r" % (a,), fr.f.loc(node))
             if fn.attr in ("keys", "upper", "lower", "count", "values", "items", "isspace"):
                 base = self.eval(fn.value, env, fr)
                 if fn.attr == "keys" and isinstance(base, dict):
